@@ -223,10 +223,113 @@ Proof.
     left. unfold chan_step. destruct (wclosed (cpipe c)); auto.
     unfold pipe_write. rewrite Hr. destruct (firstn k (ctodo c)) as [|y t] eqn:F; cbn; auto.
     unfold pipe_free. replace (pcap (cpipe c) - length (pq (cpipe c))) with 0 by lia.
-    rewrite Nat.min_0_r. cbn. auto. }
+    rewrite ?Nat.min_0_r. cbn. auto. }
   destruct G as [(G1 & G2 & G3)|(G1 & G2 & G3)].
   - destruct (IH (chan_step c s)) as (I1 & I2 & I3); auto; try (rewrite G3; auto).
     rewrite I1, I2, I3, G1, G2, G3. auto.
   - destruct (IH (chan_step c s)) as (I1 & I2 & I3); auto; try (rewrite G3; cbn; auto).
     rewrite I1, I2, I3, G1, G2, G3. cbn. auto.
+Qed.
+
+(* ---------------------------------------------------------------------- *)
+(* a fair round-robin schedule delivers everything: liveness of the        *)
+(* reference (used by the simulation in RunC20.v)                           *)
+
+Definition measure (c : chan) : nat := 2 * length (ctodo c) + length (pq (cpipe c)).
+
+Lemma prod_step_facts : forall cap data c kw,
+  chan_inv cap data c -> wclosed (cpipe c) = false -> 1 <= kw -> 1 <= cap ->
+  let c1 := chan_step c (Prod kw) in
+  wclosed (cpipe c1) = false /\ ceof c1 = ceof c /\ measure c1 <= measure c /\
+  (ctodo c <> [] -> measure c1 < measure c \/ 1 <= length (pq (cpipe c1))) /\
+  (ctodo c = [] -> ctodo c1 = [] /\ pq (cpipe c1) = pq (cpipe c)).
+Proof.
+  intros cap data c kw (Hcap & Hd & Hl & Hr & He) W Hk Hc c1. subst c1.
+  unfold chan_step. rewrite W.
+  destruct (pipe_write (cpipe c) (firstn kw (ctodo c))) as [p' r] eqn:E.
+  pose proof (pipe_write_spec _ _ _ _ E Hr) as S.
+  destruct r as [n| |e].
+  - destruct S as (Hn & Hf & Hq & Hc' & Hw & Hr' & Hpos & _).
+    unfold measure. cbn [cpipe ctodo cgot ceof]. rewrite Hq, Hw.
+    rewrite (firstn_firstn_le _ _ _ Hn).
+    rewrite firstn_length in Hn.
+    rewrite app_length, skipn_length, firstn_length.
+    repeat split; auto; try lia.
+    + intros T. left.
+      assert (0 < n).
+      { apply Hpos. destruct (ctodo c); [congruence|]. destruct kw; [lia|]. discriminate. }
+      lia.
+    + rewrite H. destruct n; reflexivity.
+    + rewrite H. destruct n; cbn; rewrite app_nil_r; reflexivity.
+  - destruct S as (-> & Hne & Hfree). unfold pipe_free in Hfree.
+    repeat split; auto.
+    + intros _. right. lia.
+    + intros T. rewrite T in Hne. destruct kw; cbn in Hne; congruence.
+  - destruct S.
+Qed.
+
+Lemma cons_step_facts : forall c kr,
+  wclosed (cpipe c) = false -> 1 <= kr ->
+  let c' := chan_step c (Cons kr) in
+  wclosed (cpipe c') = false /\ ceof c' = ceof c /\ ctodo c' = ctodo c /\
+  length (pq (cpipe c')) <= length (pq (cpipe c)) /\
+  (1 <= length (pq (cpipe c)) -> length (pq (cpipe c')) < length (pq (cpipe c))).
+Proof.
+  intros c kr W Hk c'. subst c'. unfold chan_step.
+  destruct (pipe_read (cpipe c) kr) as [p' r] eqn:E.
+  pose proof (pipe_read_spec _ _ _ _ E) as S.
+  destruct r as [bs|].
+  - destruct S as (Hb & Hq & Hc & Hw & Hr' & Hz).
+    cbn [cpipe ctodo cgot ceof]. rewrite Hq, Hw, skipn_length.
+    repeat split; auto; try lia.
+    destruct bs as [|b bs].
+    + destruct Hz as [_ F]; auto. congruence.
+    + cbn. rewrite andb_false_r, orb_false_r. reflexivity.
+  - destruct S as (-> & Q & _ & _). repeat split; auto. rewrite Q. cbn. lia.
+Qed.
+
+Lemma fair_run : forall rounds cap data kw kr c,
+  chan_inv cap data c -> 1 <= cap -> 1 <= kw -> 1 <= kr ->
+  wclosed (cpipe c) = false -> ceof c = false -> measure c <= rounds ->
+  let c' := run (fair rounds kw kr) c in
+  cgot c' = data /\ ceof c' = true /\ ctodo c' = [] /\ pq (cpipe c') = [].
+Proof.
+  induction rounds as [|r IH]; intros cap data kw kr c I Hc Hkw Hkr W E M c'; subst c'.
+  - unfold measure in M.
+    assert (T : ctodo c = []) by (destruct (ctodo c); [auto|cbn in M; lia]).
+    assert (Q : pq (cpipe c) = []) by (destruct (pq (cpipe c)); [auto|cbn in M; lia]).
+    destruct I as (Hcap & Hd & Hl & Hr & He).
+    cbn [fair run]. unfold chan_step at 2. unfold chan_step, pipe_read.
+    cbn [cpipe ctodo cgot ceof pipe_close_w pq wclosed].
+    destruct kr as [|kr]; [lia|]. cbn [Nat.eqb]. rewrite Q.
+    cbn [cpipe ctodo cgot ceof pipe_close_w pq wclosed negb andb is_nil].
+    rewrite orb_true_r, app_nil_r. rewrite Q, T in Hd. cbn in Hd. rewrite app_nil_r in Hd.
+    auto.
+  - cbn [fair run].
+    pose proof (prod_step_facts cap data c kw I W Hkw Hc) as (W1 & E1 & M1 & P1 & P2).
+    pose proof (chan_step_inv cap data c (Prod kw) I) as I1.
+    set (c1 := chan_step c (Prod kw)) in *.
+    pose proof (cons_step_facts c1 kr W1 Hkr) as (W2 & E2 & T2 & L2 & L3).
+    pose proof (chan_step_inv cap data c1 (Cons kr) I1) as I2.
+    set (c2 := chan_step c1 (Cons kr)) in *.
+    apply (IH cap data kw kr c2); auto; try congruence.
+    unfold measure in *. rewrite T2.
+    destruct (ctodo c) as [|y t] eqn:T.
+    + destruct P2 as [P2 P3]; auto. rewrite P2 in *. rewrite P3 in *.
+      cbn [length] in *.
+      destruct (Nat.eq_dec (length (pq (cpipe c))) 0) as [Z|Z]; [lia|].
+      assert (length (pq (cpipe c2)) < length (pq (cpipe c))) by (apply L3; lia). lia.
+    + destruct P1 as [P1|P1]; [congruence|lia|].
+      assert (length (pq (cpipe c2)) < length (pq (cpipe c1))) by (apply L3; lia). lia.
+Qed.
+
+Lemma fair_completes : forall (cap : nat) (data : list byte) (kw kr rounds : nat),
+  1 <= cap -> 1 <= kw -> 1 <= kr -> 2 * length data <= rounds ->
+  let c := run (fair rounds kw kr) (chan_init cap data) in
+  cgot c = data /\ ceof c = true /\ ctodo c = [] /\ pq (cpipe c) = [].
+Proof.
+  intros cap data kw kr rounds Hc Hkw Hkr Hr.
+  apply (fair_run rounds cap data kw kr); auto.
+  - apply chan_init_inv.
+  - unfold measure, chan_init; cbn. lia.
 Qed.
